@@ -576,31 +576,36 @@ Definition add_overflow (e1 e2 : re) : Prop :=
   (exists x xr yr, rule7 e1 e2 = Some (x, xr, yr) /\ lr_add xr yr = None).
 
 Theorem concat_none : forall e1 m e2, wf m -> owned m e1 -> owned m e2 -> concat e1 m e2 = None ->
-  exists a m1 b, owned m1 a /\ owned m1 b /\ add_overflow a b.
+  exists a m1 b, wf m1 /\ ext m m1 /\ owned m1 a /\ owned m1 b /\ add_overflow a b.
 Proof.
   induction e1 as [e1 IH] using re_induction. intros m e2 W O1 O2 H.
   assert (Hmk : forall k, not_compl k -> make m k <> None).
   { intros k Hk E. destruct (make_total m k W Hk) as (m' & t & E'). congruence. }
+  assert (Hhere : add_overflow e1 e2 ->
+            exists a m1 b, wf m1 /\ ext m m1 /\ owned m1 a /\ owned m1 b /\ add_overflow a b).
+  { intros Hov. exists e1, m, e2. split; [exact W|]. split; [apply ext_refl|]. auto. }
   rewrite concat_unfold in H.
   destruct (is_empty_node e1); [discriminate|]. destruct (is_empty_node e2); [discriminate|].
   destruct (is_eps_node e1); [discriminate|]. destruct (is_eps_node e2); [discriminate|].
   unfold concat_rules in H.
   destruct (rule5 e1 e2) as [rng|] eqn:R5.
   { destruct (lr_add_point rng 1) as [r|] eqn:A; cbn [bind] in H; [exfalso; apply (Hmk (NLoop e1 r) I H)|].
-    exists e1, m, e2. repeat split; auto. left. exists rng. auto. }
+    apply Hhere. left. exists rng. auto. }
   destruct (rule5 e2 e1) as [rng|] eqn:R6.
   { destruct (lr_add_point rng 1) as [r|] eqn:A; cbn [bind] in H; [exfalso; apply (Hmk (NLoop e2 r) I H)|].
-    exists e1, m, e2. repeat split; auto. left. exists rng. auto. }
+    apply Hhere. left. exists rng. auto. }
   destruct (rule7 e1 e2) as [[[x xr] yr]|] eqn:R7.
   { destruct (lr_add xr yr) as [r|] eqn:A; cbn [bind] in H; [exfalso; apply (Hmk (NLoop x r) I H)|].
-    exists e1, m, e2. repeat split; auto. right. exists x, xr, yr. auto. }
+    apply Hhere. right. exists x, xr, yr. auto. }
   destruct (re_eqb e1 e2); [exfalso; apply (Hmk (NLoop e1 (lr_point 2)) I H)|].
   destruct (rnode e1) as [| |s|x y|x xr|x|l|l] eqn:K.
   4: { destruct (wf_child m W e1 x O1) as [Ox _]; [rewrite K; cbn; auto|].
        destruct (wf_child m W e1 y O1) as [Oy _]; [rewrite K; cbn; auto|].
        destruct (concat y m e2) as [[m1 rt]|] eqn:C1; cbn [bind] in H.
        - destruct (concat_ok y m e2 m1 rt W Oy O2 C1) as (W1 & X1 & Ort & _).
-         apply (IH x (or_introl eq_refl) m1 rt W1 (ext_owned m m1 x X1 Ox) Ort H).
+         destruct (IH x (or_introl eq_refl) m1 rt W1 (ext_owned m m1 x X1 Ox) Ort H)
+           as (a & m2 & b & W2 & X2 & Hrest).
+         exists a, m2, b. split; [exact W2|]. split; [eapply ext_trans; eauto | exact Hrest].
        - apply (IH y (or_intror (or_introl eq_refl)) m e2 W Oy O2 C1). }
   all: destruct (rnul e1 && re_eqb e2 (m_full m)); [discriminate|];
     exfalso; apply (Hmk (NConcat e1 e2) I H).
@@ -897,4 +902,400 @@ Proof.
     + intros H x Hx. destruct (L_dec x w) as [Hw|Hw]; auto.
       apply H. apply E. split; auto. intros ->. apply Hw. apply L_m_full; auto.
     + intros H x Hx. apply H. apply E in Hx. tauto.
+Qed.
+
+(* ------------------------------------------------------------------------------------------ *)
+(** * make_inter, make_union *)
+
+Lemma inter_node_ok m v m' t :
+  wf m -> (forall x, In x v -> owned m x) -> make m (NInter v) = Some (m', t) -> post m m' t (l_all v).
+Proof.
+  intros W Hv H. apply (make_ok m (NInter v) m' t W I) in H; auto; [|exact I].
+  eapply post_weaken; [exact H|]. apply lang_eq_of_equiv. intros w. apply L_inter.
+Qed.
+Lemma union_node_ok m v m' t :
+  wf m -> (forall x, In x v -> owned m x) -> make m (NUnion v) = Some (m', t) -> post m m' t (l_any v).
+Proof.
+  intros W Hv H. apply (make_ok m (NUnion v) m' t W I) in H; auto; [|exact I].
+  eapply post_weaken; [exact H|]. apply lang_eq_of_equiv. intros w. apply L_union.
+Qed.
+
+Theorem make_inter_ok m v m' t :
+  wf m -> (forall x, In x v -> owned m x) -> make_inter m v = Some (m', t) -> post m m' t (l_all v).
+Proof.
+  intros W Hv H. unfold make_inter in H.
+  destruct (simplify_inter m v W Hv) as [Ho HL]. cbv zeta in Ho, HL.
+  set (v' := simplify_set_operation v (m_full m) (m_empty m)) in *.
+  pose proof (c_eps_o m (wf_consts m W)) as Oe.
+  destruct (contains v' (m_eps m)) eqn:C.
+  - (* epsilon shortcut *)
+    apply contains_true in C as (y & Hy & E).
+    assert (y = m_eps m) by (apply (id_inj m); auto). subst y.
+    assert (Hnul : forallb rnul v' = true <-> l_all v' []).
+    { rewrite forallb_forall. unfold l_all. split; intros Hn x Hx; apply (nullable_owned m x W (Ho x Hx)); auto. }
+    inversion H; subst m' t. destruct (forallb rnul v') eqn:F.
+    + apply post_same; auto. eapply lang_eq_trans; [|exact HL]. apply lang_eq_of_equiv. intros w.
+      rewrite (L_m_eps m w W). split.
+      * intros ->. apply Hnul. reflexivity.
+      * intros Hall. apply (L_m_eps m w W). apply Hall. exact Hy.
+    + eapply post_weaken; [apply empty_ok; auto|]. eapply lang_eq_trans; [|exact HL].
+      apply lang_eq_of_equiv. intros w. split; [tauto|]. intros Hall.
+      assert (w = []) by (apply (L_m_eps m w W); apply Hall; exact Hy). subst w.
+      apply Hnul in Hall. discriminate.
+  - destruct v' as [|x [|y r]] eqn:V.
+    + inversion H; subst m' t. eapply post_weaken; [apply full_ok; auto|].
+      eapply lang_eq_trans; [|exact HL]. intros w Hg. unfold l_all. split; [intros _ x [] | auto].
+    + inversion H; subst m' t. apply post_same; auto; [apply Ho; left; reflexivity|].
+      eapply lang_eq_trans; [|exact HL]. apply lang_eq_of_equiv. intros w. unfold l_all. split.
+      * intros Hw z [<-|[]]. exact Hw.
+      * intros Hall. apply Hall. left; reflexivity.
+    + apply inter_node_ok in H; auto. eapply post_weaken; [exact H | exact HL].
+Qed.
+
+Definition inclusion_sound_on (m : mgr) : Prop :=
+  forall r s, owned m r -> owned m s -> included_in r s = true -> lang_incl (L r) (L s).
+
+Lemma l_any_app v1 v2 w : l_any (v1 ++ v2) w <-> l_any v1 w \/ l_any v2 w.
+Proof.
+  unfold l_any. split.
+  - intros (x & Hx & Hw). apply in_app_or in Hx as [Hx|Hx]; [left | right]; exists x; auto.
+  - intros [(x & Hx & Hw)|(x & Hx & Hw)]; exists x; split; auto; apply in_or_app; auto.
+Qed.
+
+Lemma remove_subsumed_ok m : inclusion_sound_on m -> forall rest kept,
+  (forall x, In x (kept ++ rest) -> owned m x) ->
+  (forall x, In x (remove_subsumed_go kept rest) -> In x (kept ++ rest)) /\
+  lang_eq (l_any (remove_subsumed_go kept rest)) (l_any (kept ++ rest)).
+Proof.
+  intros Hsub. induction rest as [|cur t IH]; intros kept Ho; cbn [remove_subsumed_go].
+  - rewrite app_nil_r. split; [auto | apply lang_eq_refl].
+  - destruct (is_subsumed cur (kept ++ cur :: t)) eqn:S.
+    + unfold is_subsumed in S. apply existsb_exists in S as (x & Hx & Q).
+      apply andb_true_iff in Q as [Q1 Q2]. apply negb_true_iff in Q1.
+      assert (Hne : x <> cur).
+      { intros ->. unfold re_eqb in Q1. rewrite N.eqb_refl in Q1. discriminate. }
+      assert (Hx' : In x (kept ++ t)).
+      { apply in_app_or in Hx as [Hx|[Hx|Hx]]; apply in_or_app; auto. congruence. }
+      assert (Hinc : lang_incl (L cur) (L x)).
+      { apply Hsub; auto; apply Ho; auto. apply in_or_app. right. left. reflexivity. }
+      destruct (IH kept) as [I1 I2].
+      { intros z Hz. apply Ho. apply in_app_or in Hz as [Hz|Hz]; apply in_or_app; cbn; auto. }
+      split.
+      * intros z Hz. apply I1 in Hz. apply in_app_or in Hz as [Hz|Hz]; apply in_or_app; cbn; auto.
+      * eapply lang_eq_trans; [exact I2|]. intros w Hg. rewrite !l_any_app. split.
+        -- intros [H|(z & Hz & Hw)]; [left; auto | right; exists z; cbn; auto].
+        -- intros [H|(z & [<-|Hz] & Hw)]; [left; auto | | right; exists z; auto].
+           apply l_any_app. exists x. split; [exact Hx' | apply Hinc; auto].
+    + destruct (IH (kept ++ [cur])) as [I1 I2].
+      { intros z Hz. apply Ho. rewrite <- app_assoc in Hz. exact Hz. }
+      rewrite <- app_assoc in I1, I2. cbn [app] in I1, I2. auto.
+Qed.
+
+Theorem make_union_ok m v m' t :
+  wf m -> inclusion_sound_on m -> (forall x, In x v -> owned m x) ->
+  make_union m v = Some (m', t) -> post m m' t (l_any v).
+Proof.
+  intros W Hsub Hv H. unfold make_union in H.
+  destruct (simplify_union m v W Hv) as [Ho HL]. cbv zeta in Ho, HL.
+  set (v1 := simplify_set_operation v (m_empty m) (m_full m)) in *.
+  set (v2 := match v1 with _ :: _ :: _ => remove_subsumed_go [] v1 | _ => v1 end) in *.
+  assert (H2 : (forall x, In x v2 -> owned m x) /\ lang_eq (l_any v2) (l_any v)).
+  { destruct (remove_subsumed_ok m Hsub v1 [] Ho) as [R1 R2]. cbn [app] in R1, R2.
+    assert (Hrs : (forall x, In x (remove_subsumed_go [] v1) -> owned m x) /\
+                  lang_eq (l_any (remove_subsumed_go [] v1)) (l_any v)).
+    { split; [intros x Hx; apply Ho, R1, Hx | eapply lang_eq_trans; eauto]. }
+    unfold v2. destruct v1 as [|a [|b r]]; auto. }
+  destruct H2 as [Ho2 HL2]. clearbody v2.
+  destruct v2 as [|x [|y r]].
+  - inversion H; subst m' t. eapply post_weaken; [apply empty_ok; auto|].
+    eapply lang_eq_trans; [|exact HL2]. apply lang_eq_of_equiv. intros w. unfold l_any.
+    split; [tauto | intros (x & [] & _)].
+  - inversion H; subst m' t. apply post_same; auto; [apply Ho2; left; reflexivity|].
+    eapply lang_eq_trans; [|exact HL2]. apply lang_eq_of_equiv. intros w. unfold l_any. split.
+    + intros Hw. exists x. split; [left; reflexivity | exact Hw].
+    + intros (z & [<-|[]] & Hw). exact Hw.
+  - apply union_node_ok in H; auto. eapply post_weaken; [exact H | exact HL2].
+Qed.
+
+(* ------------------------------------------------------------------------------------------ *)
+(** * flattening, inter / union / diff and their list forms *)
+
+Lemma flatten_inter_unfold e :
+  flatten_inter e = match rnode e with NInter l => flat_map flatten_inter l | _ => [e] end.
+Proof.
+  destruct e as [i n c k]; destruct k; reflexivity.
+Qed.
+Lemma flatten_union_unfold e :
+  flatten_union e = match rnode e with NUnion l => flat_map flatten_union l | _ => [e] end.
+Proof.
+  destruct e as [i n c k]; destruct k; reflexivity.
+Qed.
+
+Lemma flatten_inter_ok m : wf m -> forall e, owned m e ->
+  (forall x, In x (flatten_inter e) -> owned m x) /\ forall w, l_all (flatten_inter e) w <-> L e w.
+Proof.
+  intros W. induction e as [e IH] using re_induction. intros Ho.
+  rewrite flatten_inter_unfold.
+  destruct (rnode e) as [| |s|x y|x xr|x|l|l] eqn:K;
+    try (split; [intros z [<-|[]]; exact Ho |
+                 intros w; unfold l_all; split; [intros H; apply H; left; reflexivity | intros H z [<-|[]]; exact H]]).
+  assert (Hc : forall c, In c l -> owned m c).
+  { intros c Hc. apply (wf_child m W e c Ho). rewrite K. exact Hc. }
+  split.
+  - intros z Hz. apply in_flat_map in Hz as (c & Hc1 & Hc2). apply (IH c Hc1 (Hc c Hc1)). exact Hc2.
+  - intros w. rewrite (L_rnode e _ w K). unfold mk_node. rewrite L_inter. unfold l_all. split.
+    + intros H c Hc1. apply (proj1 (proj2 (IH c Hc1 (Hc c Hc1)) w)). intros z Hz. apply H. apply in_flat_map. eauto.
+    + intros H z Hz. apply in_flat_map in Hz as (c & Hc1 & Hc2).
+      apply (proj2 (proj2 (IH c Hc1 (Hc c Hc1)) w) (H c Hc1)). exact Hc2.
+Qed.
+Lemma flatten_union_ok m : wf m -> forall e, owned m e ->
+  (forall x, In x (flatten_union e) -> owned m x) /\ forall w, l_any (flatten_union e) w <-> L e w.
+Proof.
+  intros W. induction e as [e IH] using re_induction. intros Ho.
+  rewrite flatten_union_unfold.
+  destruct (rnode e) as [| |s|x y|x xr|x|l|l] eqn:K;
+    try (split; [intros z [<-|[]]; exact Ho |
+                 intros w; unfold l_any; split; [intros (z & [<-|[]] & H); exact H | intros H; exists e; split; [left; reflexivity | exact H]]]).
+  assert (Hc : forall c, In c l -> owned m c).
+  { intros c Hc. apply (wf_child m W e c Ho). rewrite K. exact Hc. }
+  split.
+  - intros z Hz. apply in_flat_map in Hz as (c & Hc1 & Hc2). apply (IH c Hc1 (Hc c Hc1)). exact Hc2.
+  - intros w. rewrite (L_rnode e _ w K). unfold mk_node. rewrite L_union. unfold l_any. split.
+    + intros (z & Hz & Hw). apply in_flat_map in Hz as (c & Hc1 & Hc2). exists c. split; auto.
+      apply (proj1 (proj2 (IH c Hc1 (Hc c Hc1)) w)). exists z. auto.
+    + intros (c & Hc1 & Hw). apply (proj2 (proj2 (IH c Hc1 (Hc c Hc1)) w)) in Hw as (z & Hz & Hw).
+      exists z. split; auto. apply in_flat_map. eauto.
+Qed.
+
+Lemma flat_map_inter_ok m l : wf m -> (forall x, In x l -> owned m x) ->
+  (forall x, In x (flat_map flatten_inter l) -> owned m x) /\
+  forall w, l_all (flat_map flatten_inter l) w <-> l_all l w.
+Proof.
+  intros W Hl. split.
+  - intros z Hz. apply in_flat_map in Hz as (c & Hc1 & Hc2).
+    apply (flatten_inter_ok m W c (Hl c Hc1)). exact Hc2.
+  - intros w. unfold l_all. split.
+    + intros H c Hc1. apply (proj1 (proj2 (flatten_inter_ok m W c (Hl c Hc1)) w)). intros z Hz. apply H. apply in_flat_map. eauto.
+    + intros H z Hz. apply in_flat_map in Hz as (c & Hc1 & Hc2).
+      apply (proj2 (proj2 (flatten_inter_ok m W c (Hl c Hc1)) w) (H c Hc1)). exact Hc2.
+Qed.
+Lemma flat_map_union_ok m l : wf m -> (forall x, In x l -> owned m x) ->
+  (forall x, In x (flat_map flatten_union l) -> owned m x) /\
+  forall w, l_any (flat_map flatten_union l) w <-> l_any l w.
+Proof.
+  intros W Hl. split.
+  - intros z Hz. apply in_flat_map in Hz as (c & Hc1 & Hc2).
+    apply (flatten_union_ok m W c (Hl c Hc1)). exact Hc2.
+  - intros w. unfold l_any. split.
+    + intros (z & Hz & Hw). apply in_flat_map in Hz as (c & Hc1 & Hc2). exists c. split; auto.
+      apply (proj1 (proj2 (flatten_union_ok m W c (Hl c Hc1)) w)). exists z. auto.
+    + intros (c & Hc1 & Hw). apply (proj2 (proj2 (flatten_union_ok m W c (Hl c Hc1)) w)) in Hw as (z & Hz & Hw).
+      exists z. split; auto. apply in_flat_map. eauto.
+Qed.
+
+Theorem inter_list_ok m l m' t :
+  wf m -> (forall x, In x l -> owned m x) -> inter_list m l = Some (m', t) -> post m m' t (l_all l).
+Proof.
+  intros W Hl H. unfold inter_list in H. destruct (flat_map_inter_ok m l W Hl) as [Ho HL].
+  apply make_inter_ok in H; auto. eapply post_weaken; [exact H|]. apply lang_eq_of_equiv. exact HL.
+Qed.
+Theorem union_list_ok m l m' t :
+  wf m -> inclusion_sound_on m -> (forall x, In x l -> owned m x) ->
+  union_list m l = Some (m', t) -> post m m' t (l_any l).
+Proof.
+  intros W Hsub Hl H. unfold union_list in H. destruct (flat_map_union_ok m l W Hl) as [Ho HL].
+  apply make_union_ok in H; auto. eapply post_weaken; [exact H|]. apply lang_eq_of_equiv. exact HL.
+Qed.
+
+Theorem inter_ok m a b m' t :
+  wf m -> owned m a -> owned m b -> inter m a b = Some (m', t) ->
+  post m m' t (fun w => L a w /\ L b w).
+Proof.
+  intros W Oa Ob H. unfold inter in H. apply inter_list_ok in H; auto.
+  - eapply post_weaken; [exact H|]. apply lang_eq_of_equiv. intros w. unfold l_all. split.
+    + intros Hall. split; apply Hall; cbn; auto.
+    + intros [Ha Hb] x [<-|[<-|[]]]; auto.
+  - intros x [<-|[<-|[]]]; auto.
+Qed.
+Theorem union_ok m a b m' t :
+  wf m -> inclusion_sound_on m -> owned m a -> owned m b -> union m a b = Some (m', t) ->
+  post m m' t (fun w => L a w \/ L b w).
+Proof.
+  intros W Hsub Oa Ob H. unfold union in H. apply union_list_ok in H; auto.
+  - eapply post_weaken; [exact H|]. apply lang_eq_of_equiv. intros w. unfold l_any. split.
+    + intros (x & [<-|[<-|[]]] & Hw); auto.
+    + intros [Ha|Hb]; [exists a | exists b]; cbn; auto.
+  - intros x [<-|[<-|[]]]; auto.
+Qed.
+Theorem diff_ok m a b m' t :
+  wf m -> owned m a -> owned m b -> diff m a b = Some (m', t) ->
+  post m m' t (fun w => L a w /\ ~ L b w).
+Proof.
+  intros W Oa Ob H. unfold diff in H.
+  destruct (complement_ok m b W Ob) as (nb & E & Onb & HL). rewrite E in H. cbn [bind] in H.
+  apply inter_ok in H; auto. eapply post_weaken; [exact H|].
+  intros w Hg. rewrite (HL w Hg). tauto.
+Qed.
+
+Theorem diff_list_ok m e1 l m' t :
+  wf m -> owned m e1 -> (forall x, In x l -> owned m x) -> diff_list m e1 l = Some (m', t) ->
+  post m m' t (fun w => L e1 w /\ forall x, In x l -> ~ L x w).
+Proof.
+  intros W O1 Hl H. unfold diff_list in H.
+  match type of H with context [bind (?f l)] => set (go := f) in * end.
+  assert (Hgo : forall l cl, (forall x, In x l -> owned m x) -> go l = Some cl ->
+            (forall x, In x cl -> owned m x) /\
+            lang_eq (l_all cl) (fun w => forall x, In x l -> ~ L x w)).
+  { clear H Hl l. induction l as [|r t0 IH]; intros cl Hl H; cbn in H.
+    - inversion H; subst. split; [intros x []|]. apply lang_eq_of_equiv. intros w. unfold l_all.
+      split; intros _ x [].
+    - destruct (complement_ok m r W (Hl r (or_introl eq_refl))) as (c & E & Oc & HLc).
+      rewrite E in H. cbn [bind] in H. fold go in H.
+      destruct (go t0) as [rest|] eqn:G; cbn [bind] in H; [|discriminate]. inversion H; subst cl.
+      destruct (IH rest) as [I1 I2]; auto. { intros x Hx. apply Hl. right. exact Hx. }
+      destruct (flatten_inter_ok m W c Oc) as [F1 F2]. split.
+      + intros x Hx. apply in_app_or in Hx as [Hx|Hx]; auto.
+      + intros w Hg. unfold l_all. split.
+        * intros Hall x [<-|Hx].
+          -- apply (proj1 (HLc w Hg)). apply (proj1 (F2 w)). intros z Hz. apply Hall. apply in_or_app. auto.
+          -- apply (proj1 (I2 w Hg)); auto. intros z Hz. apply Hall. apply in_or_app. auto.
+        * intros Hn z Hz. apply in_app_or in Hz as [Hz|Hz].
+          -- apply (proj2 (F2 w)); auto. apply (proj2 (HLc w Hg)). apply Hn. left; reflexivity.
+          -- apply (proj2 (I2 w Hg)); auto. intros x Hx. apply Hn. right. exact Hx. }
+  destruct (go l) as [cl|] eqn:G; cbn [bind] in H; [|discriminate].
+  destruct (Hgo l cl Hl G) as [G1 G2].
+  destruct (flatten_inter_ok m W e1 O1) as [F1 F2].
+  apply make_inter_ok in H; auto.
+  - eapply post_weaken; [exact H|]. intros w Hg. unfold l_all. split.
+    + intros Hall. split.
+      * apply (proj1 (F2 w)). intros z Hz. apply Hall. apply in_or_app. auto.
+      * apply (proj1 (G2 w Hg)). intros z Hz. apply Hall. apply in_or_app. auto.
+    + intros [H1 H2] z Hz. apply in_app_or in Hz as [Hz|Hz].
+      * apply (proj2 (F2 w)); auto.
+      * apply (proj2 (G2 w Hg)); auto.
+  - intros x Hx. apply in_app_or in Hx as [Hx|Hx]; auto.
+Qed.
+
+(* ------------------------------------------------------------------------------------------ *)
+(** * Totality of the set constructors; f_wf / f_lang corollaries *)
+
+Lemma make_inter_total m v : wf m -> exists m' t, make_inter m v = Some (m', t).
+Proof.
+  intros W. unfold make_inter. destruct (contains _ (m_eps m)); [eauto|].
+  destruct (simplify_set_operation v (m_full m) (m_empty m)) as [|x [|y r]]; eauto.
+  apply make_total; auto. exact I.
+Qed.
+Lemma make_union_total m v : wf m -> exists m' t, make_union m v = Some (m', t).
+Proof.
+  intros W. unfold make_union.
+  match goal with |- context [match ?v with [] => _ | _ => _ end] => destruct v as [|x [|y r]] end; eauto.
+  apply make_total; auto. exact I.
+Qed.
+
+Lemma post_wf m m' t (P : lang) : post m m' t P -> wf m' /\ ext m m' /\ owned m' t.
+Proof. intros (?&?&?&?). auto. Qed.
+Lemma post_lang m m' t (P : lang) : post m m' t P -> lang_eq (L t) P.
+Proof. intros (?&?&?&?). auto. Qed.
+
+Theorem char_set_wf m s m' t : wf m -> cs_valid s -> char_set m s = Some (m', t) ->
+  wf m' /\ ext m m' /\ owned m' t.
+Proof. intros. eapply post_wf, char_set_ok; eauto. Qed.
+Theorem char_set_lang m s m' t : wf m -> cs_valid s -> char_set m s = Some (m', t) ->
+  lang_eq (L t) (fun w => exists c, w = [c] /\ mem c s).
+Proof. intros. eapply post_lang, char_set_ok; eauto. Qed.
+Theorem range_wf m a b m' t : wf m -> range m a b = Some (m', t) -> wf m' /\ ext m m' /\ owned m' t.
+Proof. intros W H. destruct (range_ok m a b m' t W H) as (_ & _ & Hp). eapply post_wf; eauto. Qed.
+Theorem range_lang m a b m' t : wf m -> range m a b = Some (m', t) ->
+  lang_eq (L t) (fun w => exists c, w = [c] /\ a <= c /\ c <= b).
+Proof. intros W H. destruct (range_ok m a b m' t W H) as (_ & _ & Hp). eapply post_lang; eauto. Qed.
+Theorem mchar_wf m x m' t : wf m -> mchar m x = Some (m', t) -> wf m' /\ ext m m' /\ owned m' t.
+Proof. intros W H. destruct (mchar_ok m x m' t W H) as (_ & Hp). eapply post_wf; eauto. Qed.
+Theorem mchar_lang m x m' t : wf m -> mchar m x = Some (m', t) -> lang_eq (L t) (fun w => w = [x]).
+Proof. intros W H. destruct (mchar_ok m x m' t W H) as (_ & Hp). eapply post_lang; eauto. Qed.
+Theorem mstr_wf m w m' t : wf m -> mstr m w = Some (m', t) -> wf m' /\ ext m m' /\ owned m' t.
+Proof. intros W H. destruct (mstr_ok m w m' t W H) as (_ & Hp). eapply post_wf; eauto. Qed.
+Theorem mstr_lang m w m' t : wf m -> mstr m w = Some (m', t) -> lang_eq (L t) (fun x => x = w).
+Proof. intros W H. destruct (mstr_ok m w m' t W H) as (_ & Hp). eapply post_lang; eauto. Qed.
+Theorem concat_list_wf m l m' t : wf m -> (forall x, In x l -> owned m x) ->
+  concat_list m l = Some (m', t) -> wf m' /\ ext m m' /\ owned m' t.
+Proof. intros. eapply post_wf, concat_list_ok; eauto. Qed.
+Theorem concat_list_lang m l m' t : wf m -> (forall x, In x l -> owned m x) ->
+  concat_list m l = Some (m', t) -> lang_eq (L t) (l_prod l).
+Proof. intros. eapply post_lang, concat_list_ok; eauto. Qed.
+Theorem make_inter_wf m v m' t : wf m -> (forall x, In x v -> owned m x) ->
+  make_inter m v = Some (m', t) -> wf m' /\ ext m m' /\ owned m' t.
+Proof. intros. eapply post_wf, make_inter_ok; eauto. Qed.
+Theorem make_inter_lang m v m' t : wf m -> (forall x, In x v -> owned m x) ->
+  make_inter m v = Some (m', t) -> lang_eq (L t) (fun w => forall x, In x v -> L x w).
+Proof. intros. eapply post_lang, make_inter_ok; eauto. Qed.
+Theorem make_union_lang m v m' t : wf m -> inclusion_sound_on m -> (forall x, In x v -> owned m x) ->
+  make_union m v = Some (m', t) -> lang_eq (L t) (fun w => exists x, In x v /\ L x w).
+Proof. intros. eapply post_lang, make_union_ok; eauto. Qed.
+Theorem inter_list_wf m l m' t : wf m -> (forall x, In x l -> owned m x) ->
+  inter_list m l = Some (m', t) -> wf m' /\ ext m m' /\ owned m' t.
+Proof. intros. eapply post_wf, inter_list_ok; eauto. Qed.
+Theorem inter_list_lang m l m' t : wf m -> (forall x, In x l -> owned m x) ->
+  inter_list m l = Some (m', t) -> lang_eq (L t) (fun w => forall x, In x l -> L x w).
+Proof. intros. eapply post_lang, inter_list_ok; eauto. Qed.
+Theorem union_list_lang m l m' t : wf m -> inclusion_sound_on m -> (forall x, In x l -> owned m x) ->
+  union_list m l = Some (m', t) -> lang_eq (L t) (fun w => exists x, In x l /\ L x w).
+Proof. intros. eapply post_lang, union_list_ok; eauto. Qed.
+Theorem inter_wf m a b m' t : wf m -> owned m a -> owned m b -> inter m a b = Some (m', t) ->
+  wf m' /\ ext m m' /\ owned m' t.
+Proof. intros W Oa Ob H. exact (post_wf _ _ _ _ (inter_ok m a b m' t W Oa Ob H)). Qed.
+Theorem inter_lang m a b m' t : wf m -> owned m a -> owned m b -> inter m a b = Some (m', t) ->
+  lang_eq (L t) (fun w => L a w /\ L b w).
+Proof. intros W Oa Ob H. exact (post_lang _ _ _ _ (inter_ok m a b m' t W Oa Ob H)). Qed.
+Theorem union_lang m a b m' t : wf m -> inclusion_sound_on m -> owned m a -> owned m b ->
+  union m a b = Some (m', t) -> lang_eq (L t) (fun w => L a w \/ L b w).
+Proof. intros W Hs Oa Ob H. exact (post_lang _ _ _ _ (union_ok m a b m' t W Hs Oa Ob H)). Qed.
+Theorem diff_wf m a b m' t : wf m -> owned m a -> owned m b -> diff m a b = Some (m', t) ->
+  wf m' /\ ext m m' /\ owned m' t.
+Proof. intros W Oa Ob H. exact (post_wf _ _ _ _ (diff_ok m a b m' t W Oa Ob H)). Qed.
+Theorem diff_lang m a b m' t : wf m -> owned m a -> owned m b -> diff m a b = Some (m', t) ->
+  lang_eq (L t) (fun w => L a w /\ ~ L b w).
+Proof. intros W Oa Ob H. exact (post_lang _ _ _ _ (diff_ok m a b m' t W Oa Ob H)). Qed.
+Theorem diff_list_wf m e1 l m' t : wf m -> owned m e1 -> (forall x, In x l -> owned m x) ->
+  diff_list m e1 l = Some (m', t) -> wf m' /\ ext m m' /\ owned m' t.
+Proof. intros W O1 Hl H. exact (post_wf _ _ _ _ (diff_list_ok m e1 l m' t W O1 Hl H)). Qed.
+Theorem diff_list_lang m e1 l m' t : wf m -> owned m e1 -> (forall x, In x l -> owned m x) ->
+  diff_list m e1 l = Some (m', t) -> lang_eq (L t) (fun w => L e1 w /\ forall x, In x l -> ~ L x w).
+Proof. intros W O1 Hl H. exact (post_lang _ _ _ _ (diff_list_ok m e1 l m' t W O1 Hl H)). Qed.
+
+(* wf-preservation of the union constructors does not depend on the meaning of included_in *)
+Lemma remove_subsumed_sub : forall rest kept x,
+  In x (remove_subsumed_go kept rest) -> In x (kept ++ rest).
+Proof.
+  induction rest as [|cur t0 IH]; intros kept x H; cbn [remove_subsumed_go] in H.
+  - rewrite app_nil_r. exact H.
+  - destruct (is_subsumed cur (kept ++ cur :: t0)).
+    + apply IH in H. apply in_app_or in H as [H|H]; apply in_or_app; cbn; auto.
+    + apply IH in H. rewrite <- app_assoc in H. exact H.
+Qed.
+Theorem make_union_wf m v m' t : wf m -> (forall x, In x v -> owned m x) ->
+  make_union m v = Some (m', t) -> wf m' /\ ext m m' /\ owned m' t.
+Proof.
+  intros W Hv H. unfold make_union in H.
+  destruct (simplify_union m v W Hv) as [Ho _]. cbv zeta in Ho.
+  set (v1 := simplify_set_operation v (m_empty m) (m_full m)) in *.
+  set (v2 := match v1 with _ :: _ :: _ => remove_subsumed_go [] v1 | _ => v1 end) in *.
+  assert (Ho2 : forall x, In x v2 -> owned m x).
+  { intros x Hx. apply Ho. unfold v2 in Hx. destruct v1 as [|a [|b r]]; auto.
+    apply remove_subsumed_sub in Hx. exact Hx. }
+  clearbody v2. destruct v2 as [|x [|y r]].
+  - inversion H; subst. split; auto. split; [apply ext_refl | apply (c_empty_o m' (wf_consts m' W))].
+  - inversion H; subst. split; auto. split; [apply ext_refl | apply Ho2; left; reflexivity].
+  - exact (post_wf _ _ _ _ (union_node_ok m _ m' t W Ho2 H)).
+Qed.
+Theorem union_list_wf m l m' t : wf m -> (forall x, In x l -> owned m x) ->
+  union_list m l = Some (m', t) -> wf m' /\ ext m m' /\ owned m' t.
+Proof.
+  intros W Hl H. unfold union_list in H. destruct (flat_map_union_ok m l W Hl) as [Ho _].
+  eapply make_union_wf; eauto.
+Qed.
+Theorem union_wf m a b m' t : wf m -> owned m a -> owned m b -> union m a b = Some (m', t) ->
+  wf m' /\ ext m m' /\ owned m' t.
+Proof.
+  intros W Oa Ob H. unfold union in H. apply union_list_wf in H; auto.
+  intros x [<-|[<-|[]]]; auto.
 Qed.
